@@ -36,6 +36,10 @@ CHECKS = {
                 technique="exhaustive enumeration of a finite configuration x model x history space; every accepted trace is produced by the real ovniemu binary and all .prv/.pcf/.row files are parsed and validated by an independent checker",
                 text="Looms 1-2 x processes 1-2 x threads 1-2 x CPUs 1-2 x rank on/off x 8 models x {plain, every documented enter/leave pair on all threads, nesting, tasks with shared and private type labels per process, breakdown -b, flush, affinity/state changes}: for every accepted trace timestamps are non-decreasing, rows within the declared count, header duration = last event time, every event type declared in the .pcf, every non-zero value of a state type labelled, .row names exactly the rows in the documented order.",
                 note="Trusted: lib/pv.py and lib/obs.py; the documented row order encoded in checks/c13.py:expected_rows; bounded configuration space (<= 2 looms/processes/threads/CPUs)."),
+    "C14": dict(level="model_checking", engine="E4 version_server + real ovniemu", ref="DESIGN.md 5 (C14)",
+                technique="exhaustive enumeration of small complete domains on the real code: all (want, have) pairs, all short strings over a 5-letter alphabet against a regular-expression reference, the +-1 version cube per model and all subsets of required models through the real ovniemu",
+                text="version_is_compatible on all 729 pairs over {0,1,2}^3; version_parse on all ~20k/98k strings of length <= 6/7 over {0,1,.,-,a} plus a malformed list; ovni_version_check_str on the +-1 cube around the library version (abort intercepted); the real ovniemu on traces requiring every version of the +-1 cube for each of the 8 models, mixed requirements across two streams in both orders, malformed strings, and all subsets of required models x one probe event per model (enabled iff required or -a).",
+                note="Trusted: the regular-expression reference of a well-formed version (leading zeros and numbers beyond int are not judged); the emulator binary built from the tree."),
 }
 
 ORDER = ["C%02d" % i for i in range(1, 21)]
